@@ -82,6 +82,12 @@ func runUnits(v *Verifier, units []*Unit, dir string, quickT, longT int, all boo
 		go func(i int) {
 			defer wg.Done()
 			defer func() { <-sem }()
+			if results[i].O.Kind == "cover" {
+				// vacuity guard: only a definite unsat is a failure
+				r := runSolver(context.Background(), solvers[0], results[i].SMT, 3)
+				results[i].R = r
+				return
+			}
 			if results[i].Light != "" {
 				lr := runSolver(context.Background(), solvers[0], results[i].Light, 3)
 				if lr.Verdict == "unsat" {
@@ -124,7 +130,7 @@ func cmdUnit(args []string) {
 	sort.Strings(keys)
 	for _, pat := range fs.Args() {
 		for _, k := range keys {
-			if strings.Contains(k, pat) && v.inRepo(v.fnByKey[k]) {
+			if strings.Contains(k, pat) && v.inRepo(v.fnByKey[k]) && (v.fnByKey[k].Parent() == nil || v.db.Funcs[k] != nil) {
 				fn := v.fnByKey[k]
 				u := v.verifyFunc(fn, v.db.Funcs[k])
 				units = append(units, u)
@@ -142,11 +148,13 @@ func cmdUnit(args []string) {
 	bad := 0
 	for _, r := range res {
 		want := "unsat"
-		if r.O.Expect == "sat" {
-			want = "sat"
-		}
 		status := "ok"
-		if r.R.Verdict != want {
+		if r.O.Kind == "cover" {
+			if r.R.Verdict == "unsat" {
+				status = "FAIL"
+				bad++
+			}
+		} else if r.R.Verdict != want {
 			status = "FAIL"
 			bad++
 		}
